@@ -21,14 +21,12 @@ ID = 'C06'
 LEAN_MODULES = ['Yaql.Props.C06']
 P = 'Yaql.Props.C06.'
 REQUIRED_THEOREMS = [P + n for n in (
-    'perm_invariant_partial', 'spec_perm_invariant', 'perm_invariant_full_false', 'old_order_dependent',
+    'perm_invariant', 'spec_perm_invariant', 'old_order_dependent', 'old_tuple_order_dependent',
     'visible_perm', 'stage_perm', 'choose_perm')]
 TRUSTED = ['resolvelib.ListContext: the enumeration order of a layer is what its get_functions returns',
            'resolvelib.enc_fd / enc_arg (encoding of the real objects for the model)']
 ASSUMPTIONS = ['the enumeration order of one context is the same for the two passes of one choose_overload call '
-               '(true for a set that is not mutated in between)',
-               'perm_invariant_partial: no PythonType over a tuple of classes meets one over a single class '
-               '(the remaining families are the recorded finding spec-tuple-typeerror)']
+               '(true for a set that is not mutated in between)']
 
 LAT = ['Base', 'L', 'R', 'D', 'object']
 
@@ -46,16 +44,12 @@ ABC = [_o(0, [_p('a', ['py', 'D', False]), _p('b', ['py', 'D', False])]),
        _o(2, [_p('a', ['py', 'Base', False]), _p('b', ['py', 'R', False])])]
 HAND = [
     dict(layers=[dict(fns=ABC, x=False)], calls=[dict(args=[['tick', 1, 3], ['tick', 2, 3]], kw=[])]),
-    # the recorded finding: X(Base, object) A(object, Number) B(object, Integer), f(d, 7)
+    # repaired by 9bf7e72 (was TypeError or Ambiguous by order): X(Base, object) A(object, Number) B(object, Integer)
     dict(layers=[dict(fns=[_o(0, [_p('a', ['py', 'Base', False]), _p('b', ['py', 'object', False])]),
                            _o(1, [_p('a', ['py', 'object', False]), _p('b', 'Number')]),
                            _o(2, [_p('a', ['py', 'object', False]), _p('b', 'Integer')])], x=False)],
          calls=[dict(args=[['tick', 1, 3], ['tick', 2, 6]], kw=[])]),
 ]
-
-
-def has_tuple_type(layers):
-    return any(p.get('ty') == 'Number' for l in layers for o in l['fns'] for p in o['params'])
 
 
 def gen_family(rng):
@@ -223,8 +217,7 @@ def run_family(case, drv, rng, tier, hist=None):
             hist[k] = hist.get(k, 0) + 1
         if len(s) > 1:
             outs = sorted({str(r.get('err', r.get('id'))) for _, r in s.values()})
-            key = 'spec-tuple-typeerror' if 'TypeError' in outs and set(outs) <= {'TypeError', 'Ambiguous'} \
-                and has_tuple_type(case['layers']) else 'order-dependent'
+            key = 'order-dependent'
             what = '; '.join('order %r -> %s log %r' % (o, r.get('err', r.get('id')), r['log'])
                              for o, r in list(s.values())[:3])
             fails.append(('oracle', key, 'call %d has %d outcomes across %d enumeration orders: %s' % (
@@ -297,8 +290,7 @@ def subprocess_part(cases, nworkers, res, hist):
             keys = {outcome_key(o[ci][k]) for o in outs}
             if len(keys) > 1:
                 outsn = sorted({str(o[ci][k].get('err', o[ci][k].get('id'))) for o in outs})
-                key = 'spec-tuple-typeerror' if 'TypeError' in outsn and set(outsn) <= {'TypeError', 'Ambiguous'} \
-                    and has_tuple_type(case['layers']) else 'order-dependent'
+                key = 'order-dependent'
                 res.fail('oracle', key, 'set-backed contexts: call %d resolves differently in different processes: %r' % (
                     k, outsn), dict(layers=case['layers'], calls=case['calls'], mode='subprocess'))
 
@@ -345,8 +337,6 @@ def run(env, res):
             if (kind, key) in done:
                 continue
             done.add((kind, key))
-            if key == 'spec-tuple-typeerror' and any(f.key == key for f in res.failures):
-                continue                # the recorded finding: one shrunk instance is enough
             if len(res.failures) < 5:
                 small = shrink(case, drv, rng, tier, kind, key)
                 fs2, _, _ = run_family(small, drv, common.make_rng(0, 'shrink'), tier)
@@ -354,23 +344,21 @@ def run(env, res):
                 res.fail(kind, key, msg, small)
             else:
                 res.fail(kind, key, msg, case)
-        if len([f for f in res.failures if f.key != 'spec-tuple-typeerror']) >= 10:
+        if len(res.failures) >= 10:
             break
     subprocess_part(kept, 4 if tier == 'quick' else 20, res, hist)
     res.extra['histogram'] = hist
     return res
 
 
-LEVEL_TEXT = ('Lean 4 theorems: the rule-shaped resolution is invariant under every layer-wise permutation of the overloads '
-              '(spec_perm_invariant, in full: visible_perm, stage_perm, choose_perm show each stage is a function of the '
-              'overload set), hence so is the code-shaped model of the repaired choose_overload for every family in which '
-              'the tuple-vs-class TypeError cannot arise (perm_invariant_partial); the full statement is refuted for the '
-              'current code by a witness with Number()/Integer() (perm_invariant_full_false, recorded finding); '
-              'old_order_dependent documents what the repair changed. Tie: real runner.call on contexts with a controlled '
-              'enumeration order, all permutations, against the model given the same orders; set-backed contexts in '
-              'subprocesses.')
+LEVEL_TEXT = ('Lean 4 theorem perm_invariant: the code-shaped model of runner.call/choose_overload gives the same overload, '
+              'bound arguments, evaluation log and error class for every layer-wise permutation of the overloads - in full, '
+              'for every class graph, family and call (resolve = resolveSpec, and visible_perm, stage_perm, choose_perm show '
+              'each stage of resolveSpec is a function of the overload set); old_order_dependent and '
+              'old_tuple_order_dependent document the two repaired sources of order dependence. Tie: real runner.call on '
+              'contexts with a controlled enumeration order, all permutations, against the model given the same orders; '
+              'set-backed contexts in subprocesses.')
 LEVEL_NOTE = ('trusted: Lean kernel; Yaql/Model/Types.lean, Resolve.lean; ListContext as the means of controlling the '
-              'enumeration order; the harness. Known finding: TypeError-vs-Ambiguous order dependence with tuple-typed '
-              'PythonTypes.')
+              'enumeration order; the harness.')
 TECHNIQUE = 'Lean 4 proof (permutation invariance stage by stage) + exhaustive permutation replay on the real code'
 DESIGN_REF = 'DESIGN.md section 5, C06'
